@@ -402,9 +402,11 @@ func handleLPush(params internal.HandlerFuncParams) ([]byte, error) {
 		case "lpushx":
 			return nil, errors.New("LPUSHX command on non-existent key")
 		default:
-			if err = params.SetValues(params.Context, map[string]interface{}{key: []string{}}); err != nil {
+			// The list does not exist yet: store it with a single write.
+			if err = params.SetValues(params.Context, map[string]interface{}{key: newElems}); err != nil {
 				return nil, err
 			}
+			return []byte(fmt.Sprintf(":%d\r\n", len(newElems))), nil
 		}
 	}
 
@@ -441,9 +443,11 @@ func handleRPush(params internal.HandlerFuncParams) ([]byte, error) {
 		case "rpushx":
 			return nil, errors.New("RPUSHX command on non-existent key")
 		default:
-			if err = params.SetValues(params.Context, map[string]interface{}{key: []string{}}); err != nil {
+			// The list does not exist yet: store it with a single write.
+			if err = params.SetValues(params.Context, map[string]interface{}{key: newElems}); err != nil {
 				return nil, err
 			}
+			return []byte(fmt.Sprintf(":%d\r\n", len(newElems))), nil
 		}
 	}
 
